@@ -27,6 +27,7 @@ MANIFEST = {
     "note": "Namespace files (__init__.py, index.html, _namespace_) legitimately depend on the sibling set and are not compared. "
             "Sampled inputs; equality oracle needs no reference model.",
 }
+MANIFEST["text"] += ' Every configuration is also compared with the same configuration generated alone in a fresh process; histories include earlier runs of the same language and templates with other template whitespace options and a user template folder that held only a catch-all template when an earlier generator was built on it; c++17-pmr and non-default whitespace options are among the configurations.'
 
 STRESS = {
     "c": ("// {{ T.full_name }}\n\n\n{% for i in range(3) %}{{ 'tmp' | to_template_unique_name }} {% endfor %}\n"
